@@ -1,4 +1,153 @@
-import LecModel
-import LecGen
+/-
+  C12 — Fragment validation rejects exactly the foreign or damaged fragments.
+
+  `invalid_iff`      per-fragment validation reports invalid iff: header unacceptable, or not in
+                     host byte order, or library version newer than the running library, or
+                     index ∉ [0,k+m), or foreign backend id, or backend version not accepted,
+                     or payload checksum mismatch;
+  `metadata_verdict` the three-way verdict of the index / id / version / flag test;
+  `stripe_zero_iff`, `stripe_negative`
+                     stripe verification returns 0 iff no supplied fragment fails that test and
+                     otherwise the (negative) code of the first one that does;
+  `fresh_valid`      a fragment the instance has just written validates as good.
+-/
+import LecProofs.FreshLemmas
+import LecProps.C09
 namespace LecProps.C12
+open Lec LecProps.C09
+
+/-- the index / backend id / backend version / mismatch-flag test on logical metadata. -/
+theorem metadata_verdict (be : Backend) (i : Inst) (md : Meta) :
+    (invalidFragmentMetadata be i md = 0 ↔
+      (md.idx < i.k + i.m ∧ md.beId = i.beId ∧ be.compat md.beVer = true ∧ md.mismatch ≠ 1)) ∧
+    (invalidFragmentMetadata be i md ≠ 0 → invalidFragmentMetadata be i md < 0) := by
+  unfold invalidFragmentMetadata
+  by_cases h1 : md.idx ≥ i.k + i.m
+  · simp [h1, EBADHEADER]; omega
+  · by_cases h2 : md.beId = i.beId
+    · by_cases h3 : be.compat md.beVer = true
+      · by_cases h4 : md.mismatch = 1
+        · simp [h1, h2, h3, h4, EBADCHKSUM]
+        · simp [h1, h2, h3, h4]; omega
+      · simp [h1, h2, h3, EBADHEADER]
+    · simp [h1, h2, EBADHEADER]
+
+/-- per-fragment validation. -/
+theorem invalid_iff (env : Env) (be : Backend) (i : Inst) (f : Bytes) :
+    isInvalidFragment env be i f = true ↔
+      (fMagic f ≠ magicC ∨ fLibver f > env.libver ∨ ¬ RefAccept f ∨
+        ∃ md, getFragmentMetadata f = .ok md ∧
+          (md.idx ≥ i.k + i.m ∨ md.beId ≠ i.beId ∨ be.compat md.beVer = false ∨ md.mismatch = 1)) := by
+  unfold isInvalidFragment
+  by_cases hm : fMagic f = magicC
+  · by_cases hv : fLibver f > env.libver
+    · simp [hm, hv]
+    · by_cases hr : RefAccept f
+      · obtain ⟨md, hmd⟩ := (metadata_gate f).2 hr
+        have hv' : ¬ (fLibver f > env.libver) := hv
+        simp only [hm, bne_self_eq_false, Bool.false_eq_true, if_false, hv', hmd, ne_eq, not_true_eq_false,
+          false_or, hr, Except.ok.injEq, exists_eq_left']
+        have := (metadata_verdict be i md).1
+        constructor
+        · intro hx
+          have hne : invalidFragmentMetadata be i md ≠ 0 := by simpa using hx
+          apply Classical.byContradiction; intro hcon
+          apply hne
+          apply this.mpr
+          refine ⟨by omega, ?_, ?_, ?_⟩
+          · apply Classical.byContradiction; intro h'; exact hcon (Or.inr (Or.inl h'))
+          · cases hc : be.compat md.beVer
+            · exact absurd (Or.inr (Or.inr (Or.inl hc))) hcon
+            · rfl
+          · intro h'; exact hcon (Or.inr (Or.inr (Or.inr h')))
+        · intro hx
+          have hne : invalidFragmentMetadata be i md ≠ 0 := by
+            intro h0
+            obtain ⟨a, b, c, d⟩ := this.mp h0
+            rcases hx with h' | h' | h' | h'
+            · omega
+            · exact h' b
+            · rw [c] at h'; cases h'
+            · exact d h'
+          simpa using hne
+      · have hb := (metadata_gate f).1 hr
+        simp [hm, hv, hr, hb]
+  · simp [hm]
+
+/-- stripe verification. -/
+theorem stripe_zero_iff (be : Backend) (i : Inst) (frags : List Bytes) :
+    verifyStripeMetadata be i frags = 0 ↔
+      (frags ≠ [] ∧ ∀ f ∈ frags, invalidFragmentMetadata be i (parseMeta f) = 0) := by
+  unfold verifyStripeMetadata
+  by_cases he : frags = []
+  · simp [he, EINVALIDPARAMS]
+  · have : frags.isEmpty = false := by simp [he]
+    simp only [this, Bool.false_eq_true, if_false, ne_eq, he, not_false_eq_true, true_and]
+    constructor
+    · intro h f hf
+      apply Classical.byContradiction; intro hne
+      have hneg := (metadata_verdict be i (parseMeta f)).2 hne
+      have hfound : ((frags.map fun f => invalidFragmentMetadata be i (parseMeta f)).find? (· < 0)).isSome := by
+        rw [List.find?_isSome]
+        exact ⟨_, List.mem_map.mpr ⟨f, hf, rfl⟩, by simpa using hneg⟩
+      cases hfd : (frags.map fun f => invalidFragmentMetadata be i (parseMeta f)).find? (· < 0) with
+      | none => rw [hfd] at hfound; cases hfound
+      | some e =>
+        rw [hfd] at h
+        have := List.find?_some hfd
+        simp only [decide_eq_true_eq] at this
+        simp only at h
+        omega
+    · intro h
+      have : (frags.map fun f => invalidFragmentMetadata be i (parseMeta f)).find? (· < 0) = none := by
+        rw [List.find?_eq_none]
+        intro x hx
+        obtain ⟨f, hf, rfl⟩ := List.mem_map.mp hx
+        rw [h f hf]; decide
+      rw [this]
+
+theorem stripe_negative (be : Backend) (i : Inst) (frags : List Bytes)
+    (h : verifyStripeMetadata be i frags ≠ 0) : verifyStripeMetadata be i frags < 0 := by
+  unfold verifyStripeMetadata at *
+  by_cases he : frags.isEmpty = true
+  · rw [if_pos he]; decide
+  · rw [if_neg he] at h ⊢
+    cases hfd : (frags.map fun f => invalidFragmentMetadata be i (parseMeta f)).find? (· < 0) with
+    | none => rw [hfd] at h; exact absurd rfl h
+    | some e =>
+      have := List.find?_some hfd
+      simpa using this
+
+/-- a fragment the instance has just encoded or reconstructed validates as good. -/
+theorem fresh_valid (env : Env) (be : Backend) (i : Inst) (idx orig bs : Nat) (p : Bytes)
+    (h : FreshOK env i idx orig bs) (hp : p.length = bs) (hidx : idx < i.k + i.m)
+    (hc : be.compat i.beVer = true) :
+    isInvalidFragment env be i ((specHeader env i idx orig bs p).bytes ++ p) = false := by
+  unfold isInvalidFragment
+  rw [fresh_magic env i idx orig bs p h, fresh_libver env i idx orig bs p h,
+    fresh_metadata env i idx orig bs p h hp]
+  simp only [bne_self_eq_false, Bool.false_eq_true, if_false, Nat.lt_irrefl, gt_iff_lt]
+  have : invalidFragmentMetadata be i (specMeta env i idx orig bs p) = 0 :=
+    (metadata_verdict be i _).1.mpr ⟨hidx, rfl, hc, by simp [specMeta]⟩
+  simp [this]
+
+/-- the built-in backends accept exactly their own version word (null accepts any). -/
+theorem compat_rs (G : Nat → Nat → Nat) (k m v : Nat) : (rsBackend G k m).compat v = true ↔ v = 0x010000 := by
+  simp [rsBackend]
+theorem compat_xor (T : XorTable) (v : Nat) : (xorBackend T).compat v = true ↔ v = 0x010000 := by
+  simp [xorBackend]
+
+/-- non-vacuity: index k+m (one past the end) is rejected, k+m-1 is fine. -/
+example :
+    let i : Inst := { beId := 6, beVer := 0x010000, k := 2, m := 1, w := 16, ct := 1 }
+    let md (ix : Nat) : Meta := ⟨ix, 4, 0, 5, 1, [0,0,0,0,0,0,0,0], 0, 6, 0x010000⟩
+    invalidFragmentMetadata (rsBackend (fun _ _ => 0) 2 1) i (md 3) = -EBADHEADER ∧
+    invalidFragmentMetadata (rsBackend (fun _ _ => 0) 2 1) i (md 2) = 0 := by
+  decide
+
+#print axioms metadata_verdict
+#print axioms invalid_iff
+#print axioms stripe_zero_iff
+#print axioms stripe_negative
+#print axioms fresh_valid
 end LecProps.C12
